@@ -8,6 +8,7 @@ mod hist;
 mod mon;
 mod oracle;
 mod props;
+mod spec;
 mod sx;
 mod tpl;
 mod world;
